@@ -254,3 +254,42 @@ package aml
 //@   loop 2 (nextScopeIndex != InvalidIndex) invariant (nextScopeIndex == InvalidIndex || live(tree, nextScopeIndex)) && exprLen == len(expr) && exprLen == 4
 //@   loop 3 (nextIndex != InvalidIndex) invariant (nextIndex == InvalidIndex || live(tree, nextIndex)) && live(tree, nextScopeIndex) && exprLen == len(expr) && exprLen == 4
 //@   loop 4 (byteIndex < amlNameLen) invariant 0 <= byteIndex && byteIndex <= 4 && live(tree, nextIndex) && obj == ob(tree, nextIndex) && live(tree, nextScopeIndex) && exprLen == len(expr) && exprLen == 4
+
+// ---- parser state between tables, deferred blocks (C11) ----------------------------------------
+// every table parse starts from the same state: in particular in the mode that skips
+// ambiguous blocks, whatever an earlier table left behind
+//@ func (p *Parser) resetState(tableHandle uint8, tableName string)
+//@   property C11
+//@   requires p != nil
+//@   modifies p.tableHandle, p.tableName, p.resolvePasses, p.mergedScopes, p.relocatedObjects, p.mode, p.scopeStack, p.pkgEndStack
+//@   ensures p.mode == parseModeSkipAmbiguousBlocks && p.tableHandle == tableHandle && p.resolvePasses == 0 && p.mergedScopes == 0 && p.relocatedObjects == 0 && isnil(p.scopeStack) && isnil(p.pkgEndStack)
+
+// parseDeferredBlocks: a node whose opcode defers parsing (and that belongs to the table being
+// parsed) is parsed in place, in all-blocks mode, and its children - which that parse has just
+// produced - are NOT walked again; other nodes are only walked. deferVisits counts visits.
+// parseObjectArgs is seen here only as "may change anything but the visit count" (ASSUMED).
+//@ ghost deferVisits uintptr
+//@ pred noneFreed(t *ObjectTree) = forall(i, uint32, old(live(t, i)) ==> live(t, i))
+// parser-level invariants the walk relies on: reader window inside the table, every live
+// object's opcode-table index inside the table
+//@ pred walkOK(p *Parser) = p != nil && p.objTree != nil && wfTree(p.objTree) && wfR(&p.r) && len(pOpcodeTable) >= 0 && forall(i, uint32, live(p.objTree, i) ==> int(ob(p.objTree, i).infoIndex) < len(pOpcodeTable))
+//@ func (p *Parser) parseObjectArgs~callers(curObj *Object) (res parseResult)
+//@   trusted
+//@   modifies *
+//@   ensures p.objTree == old(p.objTree) && walkOK(p) && noneFreed(p.objTree) && pOpcodeTable == old(pOpcodeTable)
+//@ func (p *Parser) popPkgEnd~callers()
+//@   trusted
+//@   modifies Parser.pkgEndStack, amlStreamReader.pkgEnd
+//@   ensures wfR(&p.r)
+//@ func (p *Parser) parseDeferredBlocks(objIndex uint32) (res parseResult)
+//@   property C11
+//@   requires walkOK(p) && live(p.objTree, objIndex)
+//@   at entry: ghost deferVisits = deferVisits + 1
+//@   modifies *
+//@   ensures tree: p.objTree == old(p.objTree) && walkOK(p) && noneFreed(p.objTree) && pOpcodeTable == old(pOpcodeTable)
+//@   ensures counted: deferVisits >= old(deferVisits) + 1
+//@   ensures deferred: old(pOpcodeTable[ob(p.objTree, objIndex).infoIndex].flags&pOpFlagDeferParsing != 0 && ob(p.objTree, objIndex).tableHandle == p.tableHandle) ==> deferVisits == old(deferVisits) + 1
+//@   loop 1 (len(p.pkgEndStack) != 0) invariant p.objTree == old(p.objTree) && walkOK(p) && noneFreed(p.objTree) && pOpcodeTable == old(pOpcodeTable) && deferVisits == old(deferVisits) + 1
+//@   loop 2 (argIndex != InvalidIndex) invariant p.objTree == old(p.objTree) && walkOK(p) && pOpcodeTable == old(pOpcodeTable) && deferVisits >= old(deferVisits) + 1 && (argIndex != InvalidIndex ==> live(p.objTree, argIndex))
+//@   loop 2 invariant alive: noneFreed(p.objTree)
+//@   at after call parseDeferredBlocks 1: use live(p.objTree, argIndex); wfSlot(p.objTree, argIndex)
